@@ -318,7 +318,7 @@ class Discharger:
                         import engine_t
                         ok, why = engine_t.regex_is_valid(lits[0]['value'])
                         if ok: return 'R8: Regex::new on a constant pattern validated at analysis time (%s)' % why
-                    if cn == 'dot::Id::new' and len(lits) == 1 and self._same_site(e, s):
+                    if cn.endswith('dot::Id::new') and len(lits) == 1 and self._same_site(e, s):
                         if re.fullmatch(r'[a-zA-Z_][a-zA-Z_0-9]*', lits[0]['value']):
                             return 'R8: dot::Id::new on the constant identifier "%s"' % lits[0]['value']
         return None
@@ -385,7 +385,7 @@ SITE_TABLE = [
     ('rsbdd::bdd::BDDEnv::cmp_count', 'Overflow(Sub', 'R7: `n - 1` per list element; the property bounds n so that n - len does not overflow (after the language-level constant is clamped to i64::MAX >= 0, n - len >= -1 - len > i64::MIN)'),
     ('rsbdd::bdd::BDDEnv::cmp_count_compare', 'Overflow(Add', 'R7: `n + 1` per list element starting from -1, 0 or 1: bounded by the list length'),
     ('rsbdd::parser::SymbolicBDD::tokenize', 'Overflow(Add', 'ids of a preloaded ordering are positions of first appearance on the CLI path (< token count); API callers: documented precondition `distinct ids` below usize::MAX; the fresh-id counter grows by one per distinct name'),
-    ('rsbdd::parser::ParsedFormula::to_free_index::{closure#0}', 'panic', 'every symbol of an evaluated diagram is a free variable (C09: bound names never leak, engine S/O); cross-property assumption'),
+    ('rsbdd::parser::ParsedFormula::to_free_index::{closure#', 'panic', 'every symbol of an evaluated diagram is a free variable (C09: bound names never leak, engine S/O); cross-property assumption'),
     ('rsbdd::stats', 'Iterator::sum<Duration>', 'sum of <= `repeat` measured elapsed times; Duration holds u64 seconds'),
     ('rsbdd::stats', 'Index on std::vec::Vec', 'R9: stats is reached only under `repeat > 0` and exec_times has one entry per repetition, so len/2 < len'),
     ('rsbdd::stats', 'expect', 'R9: min/max of a non-empty vector (same guard `repeat > 0` at the only call chain)'),
@@ -399,6 +399,6 @@ SITE_TABLE = [
 
 def site_table_reason(s):
     for (fn, what, reason) in SITE_TABLE:
-        if s.fn == fn and s.what.startswith(what):
+        if (s.fn == fn or (fn.endswith('{closure#') and s.fn.startswith(fn))) and s.what.startswith(what):
             return 'site table: ' + reason
     return None
